@@ -85,13 +85,15 @@ type cfg struct {
 	// NotFound: number of transport-level -404 (auth key not found) frames the peer delivers before it
 	// goes silent (the client's read loop skips them and reads again: key regeneration path)
 	NotFound int `json:"not_found"`
+	GapMs    int `json:"gap_ms"` // pause before each -404 frame (< T: every frame arrives before the running timeout)
 }
 
 type result struct {
 	Returned  bool  `json:"returned_before_watchdog"`
 	Within    bool  `json:"within_bound"`
 	ElapsedMs int64 `json:"elapsed_ms_after_stall"`
-	Stalled   bool  `json:"stalled"` // the proxy reached the stall point
+	Early     bool  `json:"returned_clearly_before_T"` // returned less than 0.8*T after the step started
+	Stalled   bool  `json:"stalled"`                   // the proxy reached the stall point
 	ErrNil    bool  `json:"err_nil"`
 }
 
@@ -108,6 +110,7 @@ func run(c *hx.Ctx, cf cfg) result {
 		h.StopReadingAt = cf.K
 	}
 	if cf.NotFound > 0 {
+		h.InjectGap = time.Duration(cf.GapMs) * time.Millisecond
 		h.InjectS2C = func(i int) [][]byte {
 			if i != cf.K {
 				return nil
@@ -185,6 +188,7 @@ loop:
 	if returned && res.Stalled {
 		res.ElapsedMs = finished.Sub(s).Milliseconds()
 		res.Within = finished.Sub(s) <= bound
+		res.Early = finished.Sub(s) < timeoutT*8/10
 	}
 	if !returned {
 		res.ElapsedMs = -1
@@ -202,10 +206,13 @@ func stallStart(l *xkit.Link, tc *timedConn, cf cfg) time.Time {
 			stalled = true
 		}
 	}
-	if !stalled {
+	if !stalled && cf.NotFound == 0 {
 		return time.Time{}
 	}
-	return tc.opStart(cf.Dir, cf.K+cf.NotFound) // every skipped -404 costs one more Recv call
+	// (with injected frames the proxy withholds message K by construction: the step is stalled as soon
+	// as the client has entered its K-th receive, whether or not a frame was delivered before it gave up)
+	// the STEP starts with its first receive call; skipped -404 frames belong to the same step
+	return tc.opStart(cf.Dir, cf.K)
 }
 
 func main() {
@@ -223,7 +230,7 @@ func main() {
 		if cf.Level == "mtproto" {
 			lvl = 1
 		}
-		c.Count(fmt.Sprintf("%s:temp=%v:pfs=%v:dir=%d:k=%d:notfound=%d:caller=%d->returned=%v,within=%v", cf.Level, cf.Temp, cf.PFS, cf.Dir, cf.K, cf.NotFound, cf.CallerMs, r.Returned, r.Within))
+		c.Count(fmt.Sprintf("%s:temp=%v:pfs=%v:dir=%d:k=%d:notfound=%d:caller=%d->returned=%v,within=%v", cf.Level, cf.Temp, cf.PFS, cf.Dir, cf.K, cf.NotFound*1000+cf.GapMs, cf.CallerMs, r.Returned, r.Within))
 		js := map[string]interface{}{"config": cf, "observed": r}
 		if !r.Stalled {
 			// the exchange ended before the stall point was reached: harness problem, not a finding
@@ -232,8 +239,9 @@ func main() {
 			return
 		}
 		// case: (level, pfs, dir, k, caller_ms, dial_ms, T_ms, bound_ms, observed within)
-		sh, ix := c.Case(hx.Tuple(hx.Z(int64(lvl)), hx.B(cf.PFS), hx.Z(int64(cf.Dir)), hx.Z(int64(cf.K)), hx.Z(int64(cf.CallerMs)), hx.Z(int64(cf.DialMs)),
-			hx.Z(timeoutT.Milliseconds()), hx.Z(bound.Milliseconds()), hx.B(r.Returned && r.Within)), js)
+		sh, ix := c.Case(hx.Tuple(hx.Tuple(hx.Z(int64(lvl)), hx.B(cf.PFS), hx.Z(int64(cf.Dir)), hx.Z(int64(cf.K)), hx.Z(int64(cf.CallerMs)), hx.Z(int64(cf.DialMs))),
+			hx.Tuple(hx.Z(int64(cf.NotFound)), hx.Z(int64(cf.GapMs))),
+			hx.Tuple(hx.Z(timeoutT.Milliseconds()), hx.Z(bound.Milliseconds())), hx.Tuple(hx.B(r.Returned && r.Within), hx.B(r.Early))), js)
 		c.Nontrivial(fmt.Sprintf("%+v", cf))
 		c.Sample(js)
 		if r.ErrNil {
@@ -248,6 +256,9 @@ func main() {
 			sig := fmt.Sprintf("no-timeout-dir%d-k%d", cf.Dir, cf.K)
 			if cf.NotFound > 0 {
 				sig += "-after-404"
+				if cf.GapMs > 0 {
+					sig = "step-kept-alive-by-404-frames"
+				}
 			}
 			how := fmt.Sprintf("returned %d ms after the step started", r.ElapsedMs)
 			if !r.Returned {
@@ -287,6 +298,10 @@ func main() {
 		one(cfg{Level: "exchange", Temp: nf == 3, Dir: 1, K: 1, NotFound: nf})
 		one(cfg{Level: "exchange", Temp: nf == 1, Dir: 1, K: 1, NotFound: nf, CallerMs: 20000})
 	}
+	// a peer that keeps the step alive with one -404 every 0.7*T and then goes silent: the STEP must
+	// still end T after it started, not T after the last frame
+	one(cfg{Level: "exchange", Dir: 1, K: 1, NotFound: 8, GapMs: int(timeoutT.Milliseconds() * 7 / 10)})
+	one(cfg{Level: "exchange", Temp: true, Dir: 1, K: 1, NotFound: 8, GapMs: int(timeoutT.Milliseconds() * 7 / 10), CallerMs: 20000})
 	// connect path: mtproto.Conn.Run with and without PFS, no caller deadline, DialTimeout 20 s
 	for _, pfs := range []bool{false, true} {
 		for k := 1; k <= 3; k++ {
